@@ -718,6 +718,8 @@ SKELS = [  # (lean name, source file, dump filter, function name, signature subs
     ('NLSolver_LoadModel', 'nl-writer2/src/nl-solver.cc', 'NLSolver::LoadModel', 'LoadModel', 'const mp::NLModel &'),
     ('NLSolver_ReadSolution', 'nl-writer2/src/nl-solver.cc', 'NLSolver::ReadSolution', 'ReadSolution', 'mp::NLSolution ()'),
     ('NLSolver_Solve', 'nl-writer2/src/nl-solver.cc', 'NLSolver::Solve', 'Solve', 'const mp::NLModel &'),
+    ('NLSuffix_less', 'nl-writer2/src/nl-solver.cc', 'NLSuffix', 'operator<', None),
+    ('StringFileWriter_dtor', 'nl-writer2/src/nl-solver.cc', 'StringFileWriter', '~StringFileWriter', None),
     ('NLW2_SetWarmstart_C', 'nl-writer2/src/nl-model-c.cc', 'NLW2_SetWarmstart_C', 'NLW2_SetWarmstart_C', None),
     ('NLW2_SetDualWarmstart_C', 'nl-writer2/src/nl-model-c.cc', 'NLW2_SetDualWarmstart_C', 'NLW2_SetDualWarmstart_C', None),
 ]
